@@ -13,6 +13,7 @@ package c06
 
 import (
 	"fmt"
+	"strings"
 	"testing"
 
 	"git.torproject.org/pluggable-transports/snowflake.git/v2/common/namematcher"
@@ -239,6 +240,83 @@ func TestVerifC06a(t *testing.T) {
 	// hosts over the same alphabet up to length 3.
 	raw3 := allStrings([]byte{'a', '.', '^', '$'}, 3)
 	exhaustive(res, "exh-raw", raw3, raw3)
+
+	// 4. membership against the documented pattern language, for rules of the
+	// valid form ^?core$ (core without ^ or $): "^core$" accepts exactly core,
+	// "core$" accepts every name ending in core. Hosts are built around the core:
+	// equal, prefixed, suffixed, the core repeated around a foreign part, a proper
+	// tail, empty.
+	nm := vlib.Scale(20000, 1000000)
+	for i := 0; i < nm; i++ {
+		r := root.SplitN("member", i)
+		core := genCore(r)
+		if strings.ContainsAny(core, "^$") {
+			core = strings.Map(func(c rune) rune {
+				if c == '^' || c == '$' {
+					return 'x'
+				}
+				return c
+			}, core)
+		}
+		exact := r.Bool()
+		rule := core + "$"
+		if exact {
+			rule = "^" + rule
+		}
+		x := r.PickString([]string{"x", ".", "www.", "-", ".cdn-", "a", "evil.example."})
+		var h, hk string
+		switch r.Intn(7) {
+		case 0:
+			h, hk = core, "equal"
+		case 1:
+			h, hk = x+core, "prefixed"
+		case 2:
+			h, hk = core+x, "suffixed"
+		case 3:
+			h, hk = core+x+core, "repeated"
+		case 4:
+			h, hk = tailOf(r, core), "tail"
+		case 5:
+			h, hk = "", "empty"
+		default:
+			h, hk = x+core+x, "infix"
+		}
+		want := strings.HasSuffix(h, core)
+		if exact {
+			want = h == core
+		}
+		m := namematcher.NewNameMatcher(rule)
+		res.Eval(1)
+		var got bool
+		if res.Guard("panic:namematcher", lawCase{Case: fmt.Sprintf("member/%d", i), A: rule, Host: h}, func() { got = m.IsMember(h) }) {
+			continue
+		}
+		res.Obs("member_reference_cases", 1)
+		if want {
+			res.Obs("member_reference_accepting", 1)
+		}
+		if hk == "repeated" && exact && h != core {
+			res.Obs("member_reference_exact_repeated_name", 1)
+		}
+		if got != want {
+			cls := "suffix"
+			if exact {
+				cls = "exact"
+			}
+			verdict := "accepts-nonmember"
+			if want {
+				verdict = "rejects-member"
+			}
+			res.Violatef("member-reference:"+cls+":"+verdict+":"+hk, lawCase{Case: fmt.Sprintf("member/%d", i), A: rule, Host: h, MemA: got},
+				"NewNameMatcher(%q).IsMember(%q) = %v; the pattern language says %v (%s pattern, host %s)", rule, h, got, want, cls, hk)
+		}
+		if i%97 == 0 {
+			res.Distinct("member\x00" + rule + "\x00" + h)
+		}
+	}
+	res.RequireObs("member_reference_cases", int64(nm)*9/10)
+	res.RequireObs("member_reference_accepting", int64(nm)/10)
+	res.RequireObs("member_reference_exact_repeated_name", 100)
 
 	res.RequireObs("rand_premise_true", int64(n)*30/100)
 	res.RequireObs("rand_premise_true_exact_over_exact", 100)
